@@ -1,19 +1,26 @@
 /-
   Cello/Lifecycle.lean — executable model of the life cycle of collector-managed objects (property C06).
 
-  Mirrors (src/GC.c, src/Alloc.c, src/Pointer.c, src/Thread.c as they are in /repo now, i.e. after fix 5c00ad8):
+  Mirrors (src/GC.c, src/Alloc.c, src/Pointer.c, src/Thread.c as they are in /repo now, i.e. after fixes 5c00ad8,
+  d3e4e44 and d8f0c4f):
 
     alloc_by        : `set(current(GC), self, $I(root))` for new / new_root, nothing for new_raw
     GC_Set          : `if (not gc->running) return;`  nitems++ … GC_Set_Ptr … `if (nitems > mitems) { GC_Mark; GC_Sweep; }`
     del_by          : del / del_root → `rem(current(GC), self)`;  del_raw → `dealloc(destruct(self))`
     GC_Rem          : `if (not gc->running) return;`  GC_Rem_Ptr;  GC_Resize_Less;  mitems = nitems + nitems/2 + 1
-    GC_Rem_Ptr      : found on the pending list (freelist) → slot = NULL, `dealloc(destruct(ptr))`, return;
+    GC_Rem_Ptr      : `if (gc->nslots is 0 or ptr is NULL) return;` (fix d3e4e44: `del(NULL)` is a no-op, also when a
+                      destructor issues it while a sweep is releasing objects — before the fix NULL matched the first
+                      *cleared* slot of the pending list and `dealloc(destruct(NULL))` ran inside the collector);
+                      found on the pending list (freelist) → slot = NULL, `dealloc(destruct(ptr))`, return;
                       found in the registry → erase, nitems--, `dealloc(destruct(ptr))`;  else nothing
+    GC_Mark         : `GC_Unmark(gc)` first (fix d8f0c4f): the mark bits a mark phase starts from are clear even when an
+                      exception left the previous mark phase (a `Mark` instance that throws) with bits set
     GC_Sweep        : phase 1: every unmarked non-root entry, in slot order, goes to the pending list and leaves the registry;
                       marks cleared; resize; mitems = …;  phase 2: for each pending slot in order: if non-NULL, slot = NULL,
                       `dealloc(destruct(item))`;  pending list released
     Box_Del         : `del(val)` — the destructor of an owner issues a `del` for what it owns
-    GC_Del          : GC_Sweep with nothing marked (roots are not swept), then the tables are freed
+    GC_Del          : `GC_Unmark(gc)` (fix d8f0c4f), then GC_Sweep — with nothing marked, whatever an abandoned mark phase
+                      left behind (roots are not swept) — then the tables are freed
                       (Cello_Exit at program exit, Thread_Init_Run at thread exit)
     alloc / dealloc : `alloc`, `alloc_root`, `alloc_raw` are `alloc_by` (the registration half of `new…`);
                       `dealloc`, `dealloc_raw`, `dealloc_root` are one function that releases the block and never touches
@@ -34,7 +41,16 @@
 
   Two switches (`Cfg`) select the behaviour of the two halves of fix 5c00ad8, so that the pre-fix code can be stated
   and refuted; two more select the two halves of the repair proposed for KF-C06-dtor-alloc (not in the source now);
-  `Cfg.current` is the code that exists.
+  two select the two halves of fix d8f0c4f (`GC_Unmark` at the start of `GC_Mark` / in `GC_Del`) and one fix d3e4e44
+  (the NULL guard of `GC_Rem_Ptr`), so that the code before those fixes stays expressible (`Cfg.staleMarks`,
+  `Cfg.nullUnguarded`);  `Cfg.current` is the code that exists.
+
+  Mark bits: `St.marked` are the mark bits that are set in the registry *between* operations.  A completed collection
+  leaves none (`GC_Sweep` clears the bit of every survivor between its two phases); the only way to get some is a mark
+  phase that an exception leaves before `GC_Sweep` runs (`Op.markAbort marks`).  In the code that exists nothing ever
+  reads them: `GC_Mark` and `GC_Del` clear them first.
+  Undefined behaviour: `St.ub` records that `dealloc(destruct(NULL))` was executed (the real process dereferences the
+  header in front of address 0); only the code before fix d3e4e44 can set it.
 -/
 namespace Cello.Life
 
@@ -67,12 +83,24 @@ structure Cfg where
   setGuardsSweep : Bool
   /-- (proposed repair, second half) GC_Del sweeps until only roots are left -/
   teardownRepeats : Bool
+  /-- (fix d8f0c4f, first half) GC_Mark calls GC_Unmark before it marks anything -/
+  markClearsFirst : Bool
+  /-- (fix d8f0c4f, second half) GC_Del calls GC_Unmark before its sweep -/
+  teardownUnmarks : Bool
+  /-- (fix d3e4e44) GC_Rem_Ptr returns at once for NULL -/
+  remGuardsNull : Bool
 deriving Repr, DecidableEq, Inhabited
 
-def Cfg.current : Cfg := ⟨true, true, false, false⟩
-def Cfg.preFix : Cfg := ⟨false, false, false, false⟩
+def Cfg.current : Cfg := ⟨true, true, false, false, true, true, true⟩
+/-- the code before fix 5c00ad8 (and before the later ones) -/
+def Cfg.preFix : Cfg := ⟨false, false, false, false, false, false, false⟩
 /-- the code with the repair proposed for KF-C06-dtor-alloc -/
-def Cfg.repaired : Cfg := ⟨true, true, true, true⟩
+def Cfg.repaired : Cfg := { Cfg.current with setGuardsSweep := true, teardownRepeats := true }
+/-- OLD: the code before fix d8f0c4f — no `GC_Unmark`: a mark phase and the teardown sweep start from whatever bits an
+    abandoned mark phase left set -/
+def Cfg.staleMarks : Cfg := { Cfg.current with markClearsFirst := false, teardownUnmarks := false }
+/-- OLD: the code before fix d3e4e44 — `GC_Rem_Ptr(NULL)` walks the pending list -/
+def Cfg.nullUnguarded : Cfg := { Cfg.current with remGuardsNull := false }
 
 /-- an allocation made by a destructor: `new` of a leaf object `addr` (its own destructor neither deletes nor allocates);
     `marks`/`order` = marked set and slot order of the collection that this registration runs if `nitems > mitems` -/
@@ -96,10 +124,16 @@ structure St where
   log : List Ev
   /-- what the destructor of an object allocates (with `new`) when it runs; most recent binding first -/
   dalloc : List (Addr × List DAlloc)
+  /-- registered objects whose mark bit is set between operations: left by a mark phase that an exception abandoned -/
+  marked : List Addr
+  /-- objects whose destructor also issues `del(NULL)` (after its other deletions) -/
+  nulldel : List Addr
+  /-- `dealloc(destruct(NULL))` was executed inside the collector: undefined behaviour (the real process crashes) -/
+  ub : Bool
 deriving Repr, Inhabited
 
 /-- state of a fresh collector (`GC_New` on zeroed memory: `mitems = 0`, `running = true`) -/
-def St.init : St := ⟨[], [], true, 0, [], [], []⟩
+def St.init : St := ⟨[], [], true, 0, [], [], [], [], [], false⟩
 
 def St.dallocOf (s : St) (a : Addr) : List DAlloc :=
   match s.dalloc.find? (fun p => p.1 == a) with
@@ -134,6 +168,16 @@ def gcRemPtr (fin : St → Addr → St) (c : Cfg) (s : St) (x : Addr) : St :=
     fin { s with reg := eraseReg x s.reg } x
   else s
 
+/-- `GC_Rem(gc, NULL)` (= `del(NULL)` / `del_root(NULL)`, by the program or by a destructor).  `GC_Rem_Ptr` returns at once
+    (`ptr is NULL`); `GC_Rem` still recomputes `mitems`.  Before fix d3e4e44 the loop over the pending list compared NULL
+    with every slot: the first *cleared* slot matched and `dealloc(destruct(NULL))` ran (before fix 5c00ad8 a matching
+    slot was only cleared again); with no cleared slot the registry lookup of NULL finds nothing. -/
+def gcRemNull (c : Cfg) (s : St) : St :=
+  if !s.running then s else
+  let s1 := if c.remGuardsNull then s
+            else if s.pending.contains none && c.remFinalisesPending then { s with ub := true } else s
+  { s1 with mitems := threshold s1.reg.length }
+
 /-- `GC_Rem` (= `del` / `del_root`, also when issued by a destructor) -/
 def gcRem (fin : St → Addr → St) (c : Cfg) (s : St) (x : Addr) : St :=
   if !s.running then s else
@@ -146,6 +190,15 @@ def arrange : List Addr → List Addr → List Addr
   | o :: os, cand => if cand.contains o then o :: arrange os (cand.erase o) else arrange os cand
 
 def swept (marks : List Addr) (e : Entry) : Bool := !e.root && !marks.contains e.addr
+
+/-- the mark bits that are set when a mark phase that marks `marks` has run: `GC_Mark` clears every bit first
+    (`GC_Unmark`, fix d8f0c4f); before the fix the bits an abandoned mark phase had left were still there -/
+def markBits (c : Cfg) (s : St) (marks : List Addr) : List Addr :=
+  if c.markClearsFirst then marks else s.marked ++ marks
+
+/-- the mark bits `GC_Del`'s sweep reads: none (`GC_Unmark`, fix d8f0c4f); before the fix, the stale ones -/
+def teardownBits (c : Cfg) (s : St) : List Addr :=
+  if c.teardownUnmarks then [] else s.marked
 
 /-- the pending list `GC_Sweep` builds from registry `s.reg` with marked set `marks` and slot order `order` -/
 def pendingOf (s : St) (marks order : List Addr) : List Addr :=
@@ -165,26 +218,27 @@ def sweepLoopWith (fin : St → Addr → St) (c : Cfg) : List Addr → St → St
       else s
     sweepLoopWith fin c rest s'
 
-/-- `GC_Sweep` with marked set `marks`; `order` = slot order of the registry.  The pending list is a field of the
-    collector: it is overwritten at the start (`realloc`, `freenum = 0`) and released at the end (`NULL`, `0`), whatever
-    it held. -/
+/-- `GC_Sweep` when the mark bits `marks` are set; `order` = slot order of the registry.  The pending list is a field of
+    the collector: it is overwritten at the start (`realloc`, `freenum = 0`) and released at the end (`NULL`, `0`),
+    whatever it held.  Between the two phases the mark bit of every survivor is cleared. -/
 def sweepWith (fin : St → Addr → St) (c : Cfg) (s : St) (marks order : List Addr) : St :=
   let pend := pendingOf s marks order
   let reg' := s.reg.filter (fun e => !swept marks e)
-  let s1 := { s with reg := reg', pending := pend.map some, mitems := threshold reg'.length }
+  let s1 := { s with reg := reg', pending := pend.map some, mitems := threshold reg'.length, marked := [] }
   let s2 := sweepLoopWith fin c pend s1
   { s2 with pending := [] }
 
-/-- `GC_Set` (the registration done by `alloc_by`); `sw` = `GC_Mark; GC_Sweep` with the given marked set and slot order.
+/-- `GC_Set` (the registration done by `alloc_by`); `sw` = `GC_Sweep` with the given mark bits and slot order, `marks` =
+    what the `GC_Mark` before it marks.
     With the proposed repair (`c.setGuardsSweep`) no collection is started while a release loop is running. -/
 def gcSet (sw : St → List Addr → List Addr → St) (c : Cfg) (s : St) (a : Addr) (root : Bool) (marks order : List Addr) : St :=
   if !s.running then s else
   let s1 := { s with reg := s.reg ++ [⟨a, root⟩] }
-  if s1.reg.length > s1.mitems && !(c.setGuardsSweep && !s.pending.isEmpty) then sw s1 marks order else s1
+  if s1.reg.length > s1.mitems && !(c.setGuardsSweep && !s.pending.isEmpty) then sw s1 (markBits c s1 marks) order else s1
 
 /-- `dealloc(destruct(a))`: the destructor logs, allocates what it allocates (each `new` through `GC_Set`, which may run
-    a nested collection on the same collector), `del`s what the object owns (through `GC_Rem`), then the memory is
-    released.  `fuel` bounds the nesting of destructors; `fuelFor` always suffices when no destructor allocates (theorem
+    a nested collection on the same collector), `del`s what the object owns (through `GC_Rem`), issues its `del(NULL)` if
+    it is of that kind, then the memory is released.  `fuel` bounds the nesting of destructors; `fuelFor` always suffices when no destructor allocates (theorem
     `finalise_spec`): every nested call is preceded by the removal of one object from the registry or the pending list.
     Out of fuel the state is returned unchanged, i.e. with the events *missing* — no theorem can hold because of that. -/
 def finalise : Nat → Cfg → St → Addr → St
@@ -194,7 +248,8 @@ def finalise : Nat → Cfg → St → Addr → St
     let s2 := (s.dallocOf a).foldl
       (fun st d => gcSet (sweepWith (finalise fuel c) c) c st d.addr false d.marks d.order) s1
     let s3 := (s.ownsOf a).foldl (fun st x => gcRem (finalise fuel c) c st x) s2
-    { s3 with log := s3.log ++ [Ev.free a] }
+    let s4 := if s.nulldel.contains a then gcRemNull c s3 else s3
+    { s4 with log := s4.log ++ [Ev.free a] }
 
 /-- number of allocations the destructors known to the collector state can still make -/
 def St.dallocTotal (s : St) : Nat := (s.dalloc.map (fun p => p.2.length)).foldl (· + ·) 0
@@ -213,7 +268,8 @@ def allocBy (c : Cfg) (s : St) (a : Addr) (k : Kind) (marks order : List Addr) :
   | .raw => s
   | _ => gcSet (sweep c) c s a (k == .root) marks order
 
-/-- `GC_Del` with the proposed repair: sweep until only roots are left (`fuel` rounds at most) -/
+/-- `GC_Del` with the proposed repair (on top of the code that exists: `GC_Unmark` first): sweep until only roots are left
+    (`fuel` rounds at most) -/
 def sweepAll (c : Cfg) : Nat → St → List Addr → St
   | 0, s, _ => s
   | n + 1, s, order =>
@@ -241,6 +297,13 @@ inductive Op where
   | dealloc (a : Addr) (k : Kind)
   /-- the object `a` is of a type whose destructor allocates: when it runs it does `new` for each of `allocs`, in order -/
   | dtor (a : Addr) (allocs : List DAlloc)
+  /-- a mark phase (`GC_Mark`) that an exception leaves — a `Mark` instance that throws — after it has marked `marks`:
+      no `GC_Sweep` follows, the bits stay set -/
+  | markAbort (marks : List Addr)
+  /-- the object `a` is of a type whose destructor also issues `del(NULL)` -/
+  | nulldel (a : Addr)
+  /-- `del(NULL)` / `del_root(NULL)` issued by the program -/
+  | delNull
 deriving Repr, Inhabited, DecidableEq
 
 def step (c : Cfg) (s : St) : Op → St
@@ -253,28 +316,32 @@ def step (c : Cfg) (s : St) : Op → St
     match k with
     | .raw => finalise (fuelFor s) c s a
     | _ => gcRem (finalise (fuelFor s) c) c s a
-  | .collect marks order => sweep c s marks order
+  | .collect marks order => sweep c s (markBits c s marks) order
   | .stop => { s with running := false }
   | .start => { s with running := true }
-  | .teardown order => if c.teardownRepeats then sweepAll c (fuelFor s) s order else sweep c s [] order
+  | .teardown order => if c.teardownRepeats then sweepAll c (fuelFor s) s order else sweep c s (teardownBits c s) order
   | .alloc a k marks order => allocBy c s a k marks order
   | .dealloc a _ => finalise (fuelFor s) c s a
   | .dtor a allocs => { s with dalloc := (a, allocs) :: s.dalloc }
+  -- (`GC_Mark` returns before `GC_Unmark` when `nitems is 0`: no entry, no bit)
+  | .markAbort marks => { s with marked := (markBits c s marks).filter s.isReg }
+  | .nulldel a => { s with nulldel := a :: s.nulldel }
+  | .delNull => gcRemNull c s
 
 def run (c : Cfg) (s : St) (ops : List Op) : St := ops.foldl (step c) s
 
 /-- the pending list built by the collection that `op` performs in state `s` (`[]` if it performs none): reported by the
     driver next to the harness's snapshot of the real `freelist` -/
-def stepPending (s : St) : Op → List Addr
+def stepPending (c : Cfg) (s : St) : Op → List Addr
   | .new a k _ marks order | .alloc a k marks order =>
     match k with
     | .raw => []
     | _ =>
       if !s.running then [] else
       let s1 := { s with reg := s.reg ++ [⟨a, k == .root⟩] }
-      if s1.reg.length > s1.mitems then pendingOf s1 marks order else []
-  | .collect marks order => pendingOf s marks order
-  | .teardown order => pendingOf s [] order
+      if s1.reg.length > s1.mitems then pendingOf s1 (markBits c s1 marks) order else []
+  | .collect marks order => pendingOf s (markBits c s marks) order
+  | .teardown order => pendingOf s (teardownBits c s) order
   | _ => []
 
 /-! ### the mark phase as far as ownership edges are concerned (used by the driver to predict the marked set of
